@@ -17,6 +17,7 @@ extern "C" {
 // sanitizer interface (weak: absent in plain / tsan builds)
 void __asan_set_error_report_callback(void (*)(const char *)) __attribute__((weak));
 void __sanitizer_symbolize_pc(void *pc, const char *fmt, char *out, size_t out_size) __attribute__((weak));
+void __sanitizer_print_stack_trace(void) __attribute__((weak));
 }
 
 namespace vh {
@@ -277,7 +278,13 @@ static void on_fatal(int sig) {
     guard_sig = sig;
     siglongjmp(guard_env, 1);
   }
-  // outside a guarded region: die the normal way
+  // outside a guarded region: leave a stack trace for the driver's log, then die the normal way
+  {
+    char msg[128];
+    int n = snprintf(msg, sizeof msg, "FATAL signal %d outside a guarded library call (op %s)\n", sig, cur ? cur->op.c_str() : "-");
+    if (n > 0) (void)!write(real_err_fd, msg, n);
+    if (__sanitizer_print_stack_trace) { dup2(real_err_fd, 2); __sanitizer_print_stack_trace(); }
+  }
   signal(sig, SIG_DFL);
   raise(sig);
 }
